@@ -10,6 +10,6 @@ cd $(dirname $(readlink -f $0))/..
 mkdir -p /tmp/tp_ev_$$
 for c in "$@"; do
   echo "== $c"
-  VERIF_REPO=$T VERIF_EVIDENCE_DIR=/tmp/tp_ev_$$ python3 sa/check.py $c 2>&1 | grep -v "^KNOWN-FINDING" | cut -c1-600
+  VERIF_DEBUG_LOOP=$VERIF_DEBUG_LOOP VERIF_REPO=$T VERIF_EVIDENCE_DIR=/tmp/tp_ev_$$ python3 sa/check.py $c 2>&1 | grep -v "^KNOWN-FINDING" | cut -c1-600
 done
 git -C /repo worktree remove --force $T; rm -rf /tmp/tp_ev_$$
